@@ -96,9 +96,11 @@ PROPS = {
         "claim": "Spec.ledgerEntries (Spec/Ledger.lean) defines the report independently of the pipeline: window bookings mapped/filtered/aligned plus, with closing, the transfer of "
                  "each income/expense/equity total booked in [previous closing day, s) to Equity:Equity at every shown period start. Proved for all journals and flags: C02_noclose (without "
                  "closing the pipeline model's report inserts ARE the ledger entries, same list), C02_unmapped_untouched, C02_hidden_no_entry, C02_hidden_only_in_delta, and "
-                 "C02_closing_partial (the closing pair books -T / +T). PARTIAL: the induction that the closing accumulators equal the direct sums over [previous closing day, s) is not "
-                 "mechanised; that clause is decided on every run by the monitor report_equals_ledger, which renders Spec.ledgerEntries and compares it byte for byte with the REAL output of "
-                 "`knut balance` (text and CSV), in addition to the byte-exact model-vs-code comparison over the full flag space (filters, -m incl. level 0 and suffix, remap, last, diff, close).",
+                 "C02_closing_partial (the closing pair books -T / +T); Properties/C02Close.lean: C02_close (WITH closing the inserts are a permutation of Spec.ledgerEntries — the accumulators equal the direct sums over "
+                 "[previous closing day, s) — for sorted, date-consistent days containing the period starts; the permutation cannot be strengthened to equality, kernel-checked witness), C02_closing_day, C02_close_invariant. "
+                 "The hypotheses (sorted days, period starts present and increasing, zero values in unvalued runs) are what Builder.ofList + ensureDays + NewPartition produce; deriving them in Lean is not done. "
+                 "Additionally the monitor report_equals_ledger renders Spec.ledgerEntries and compares it byte for byte with the REAL output of `knut balance` (text and CSV) on every case, "
+                 "in addition to the byte-exact model-vs-code comparison over the full flag space (filters, -m incl. level 0 and suffix, remap, last, diff, close).",
         "note": "Trusted: Lean kernel; axioms propext, Classical.choice, Quot.sound; regexps restricted to the family the driver implements; rendering (BalanceReport.table, Table) is shared by "
                 "model and specification (its numeric/width properties are C17's subject); cobra flag parsing.",
         "rule": "lifecycle-generated journals (incl. a tenth with one lifecycle mutation, so rejected journals are compared too) x flag vectors over --from/--to/--last/interval/--diff/"
@@ -164,6 +166,21 @@ PROPS = {
         "assumptions": ["utf8.DecodeRuneInString behaves as Utf8.decodeRune (compared on every run)",
                         "unicode.IsLetter/IsDigit are the regenerated range tables (Go toolchain of the run)",
                         "fmt's %c/%q/%d and strings.Builder behave as the model's string building (compared through the rendered error text)"],
+    },
+    "C08": {
+        "lean": ["Knut.Properties.C08"],
+        "level": "proof",
+        "claim": "Lean theorems for ALL byte strings over the models of lib/syntax/parser, lib/syntax/printer (extract the fields, then render; same format strings, fmt padding counted in runes) and formatRunner.formatFile: C08_unparseable_untouched; C08_format_total (formatting a parsed file never violates a slice bound); C08_gaps_verbatim (output = the input's own gap slices interleaved with the re-rendered directives); C08_reparse_same_fields (the output parses, to the same number and kinds of directives with byte-identical dates, accounts, amounts, commodities, descriptions/paths, @accrue fields and @performance targets, annotation order normalised; the gaps of the output are the gaps of the input); C08_idempotent (format of the output is the output); C08_command (the disjunction for the command). All stages closed (open/close/price/include/single-line assertion, transactions with both addons in any order, multi-line assertions incl. the one-balance form); no _partial theorem remains. Proof: token-level grammar of every field with soundness and completeness of each parser function, decomposition of a successful ParseFile run into items, replay of the main loop on the rendered tokens, UTF-8 self-delimitation for re-decoding. Tie: syntax.FormatFile in-process and `knut format` on temp files are compared byte for byte with the model; the Lean predicate formatOK (same directives and fields by semFlat incl. macro-account kinds, gaps byte for byte) is evaluated on the two real trees; reparse and format-twice are checked on the real code for every case; unparseable files are checked untouched through the CLI.",
+        "note": "The theorems compare typed field views (viewDirective); the monitor compares the untyped semFlat of the dumped trees (which also carries the macro-account kind) - the two formalisations of \"same fields\" are not proved equivalent. Trusted: Lean kernel; axioms propext, Classical.choice, Quot.sound; fmt padding (%-*s, %10s count runes) and strings.Join as modelled (compared byte for byte); "
+                "atomic.WriteFile is C18's subject; cobra argument handling and multierr are glue (exit status compared).",
+        "rule": "streams: corpus (repository journals); journal (grammar-based layouts: tabs, CRLF, trailing blanks, multi-line descriptions, Unicode account names and digits, "
+                "both addon orders, multi-line assertions, missing final newline); stress (layouts the formatter must normalise: amounts wider than 10, one-balance multi-line "
+                "assertions, annotations before non-transactions, transactions ending at EOF, CR/tab inside directives); mutated (byte-level edits, mostly unparseable); formatted "
+                "(already formatted text); cli (`knut format` on one or two temp files: file bytes afterwards, exit status, no leftover files). Every in-process case: "
+                "syntax.FormatFile output vs model output byte for byte; monitors on the real output: it parses, Lean formatOK (same directives/fields by semFlat, gaps equal) on the "
+                "two real trees, formatting again changes nothing; cli: unparseable files untouched. A class = outcome x changed? x directive-kind set x layout tags.",
+        "assumptions": ["fmt.Fprintf padding verbs and strings.Join behave as renderDir (compared on every case)",
+                        "the parser model equals the Go parser (C07's correspondence, re-exercised here through c08format)"],
     },
     "C10": {
         "lean": ["Knut.Properties.C10"],
@@ -317,6 +334,28 @@ PROPS = {
                 "class = (outcome, placeholder kind, number of placeholder fields per side, replaced/kept, sizes, generator kinds).",
         "assumptions": ["scores closer than 1e-9 relative are treated as ties the float evaluation may break either way",
                         "every score the code computes is finite (logarithms of positive ratios), so the first candidate always beats -Inf"],
+    },
+    "C18": {
+        "lean": ["Knut.Properties.C18"],
+        "level": "proof",
+        "claim": "Lean theorems over a file-system state machine of formatFile / infer -i / natefinch atomic.WriteFile v1.0.1 (TempFile, Copy, Sync, Close, Stat, Stat, "
+                 "Chmod, Rename, Remove on error) for every file system, target, renderer and fault scenario (injected error at any operation, any RLIMIT_FSIZE, failing clean-up): "
+                 "in every intermediate state - hence after a crash at any point and for every length at which the write is cut short - the target is the complete old or the "
+                 "complete new file; an error leaves every path but the temp name as it was and removes the temp file; success installs the new bytes with the old mode; a file that "
+                 "does not parse leaves the file system identical; no other path is ever touched; with several files each one ends as if rewritten alone. Tie: the real binary is run "
+                 "under exact-byte RLIMIT_FSIZE limits, strace error/SIGKILL injection at the n-th openat/read/write/fsync/close/newfstatat/fchmodat/renameat/unlinkat, as an unprivileged "
+                 "user in read-only directories / on unreadable files, and on several files at once; the resulting directory is compared byte for byte with the model and the Lean "
+                 "predicate allOrNothing is evaluated on it; the call sites and the pinned atomic.WriteFile are checked against the model's operation sequence by go/ast.",
+        "note": "PARTIAL with respect to the operating system: rename(2) atomicity and fsync durability are assumptions of the model (rename is one step); power loss is not modelled. "
+                "Trusted: Lean kernel; axioms propext, Classical.choice, Quot.sound; the renderer (formatter / inference) is a parameter of the model, the harness takes the real "
+                "command's fault-free output as 'the new contents'; strace, setrlimit, the kernel.",
+        "rule": "streams: limit (format and infer -i on generated files - plain, big, empty, already formatted, unparseable, no final newline; modes 0644/0600/0664/0640 - under "
+                "RLIMIT_FSIZE = k for boundary and random k, every k for small files in the thorough tier), inject (error x {EIO,ENOSPC,EACCES} or SIGKILL at the n-th call of nine syscalls, "
+                "clean-up made to fail), perm (uid 65534, directory modes 555/755/777/500, file modes 644/444/400/000/600/200), multi (2-6 files, one unparseable, limit between the sizes), "
+                "facts (go/ast). A class = (stream, command, file kind, cut/fits, limit bucket) resp. (syscall, file kind, exit) resp. (dir mode, file mode, kind) resp. (n, bad, limit, exit).",
+        "assumptions": ["rename(2) replaces the target atomically and fsync makes the temp file durable before it (kernel / file system)",
+                        "the temp name chosen by ioutil.TempFile is fresh (O_EXCL) and differs from every target"],
+        "timeout": {"quick": 900, "thorough": 3000},
     },
 }
 
